@@ -49,7 +49,7 @@ Thorough == IOEnv.VERIF_TIER = "thorough"
 Selected ==
   DecoderCases \cup
   (IF Thorough THEN RoundTripCases
-   ELSE {c \in RoundTripCases : (c.n \in {0, 1, 3, 17}) /\ (c.nks \in {1, 3}) /\ (c.form = "hex" \/ (c.n = 3 /\ c.sec = "hex" /\ c.amt = "small"))
+   ELSE {c \in RoundTripCases : (c.n \in {0, 1, 3, 17} \/ (c.n = 40 /\ c.sec = "hex" /\ c.amt = "small" /\ c.form = "hex")) /\ (c.nks \in {1, 3}) /\ (c.form = "hex" \/ (c.n = 3 /\ c.sec = "hex" /\ c.amt = "small"))
                                 /\ (c.amt # "mixed" \/ c.sec = "hex")})
 
 Expect(c) == IF c.kind = "decode" THEN "total" ELSE Law(c)
